@@ -1,20 +1,28 @@
 #!/bin/bash
 # tools/run_checks_on_seed.sh <scratch-name> <ID>... : apply /tmp/seed-out/<ID>/patch.diff (or /verif/seeded/<ID>/patch.diff) in the scratch
-# worktree, run the quick tier of every check there, record which report a violation. Output: <dir>/checks.txt
+# worktree (kept at /repo's HEAD), build every check there, run the quick tier of each, record which report a violation.
+# CHECKS="c10 c11" restricts the checks; output: <dir>/checks.txt (appended when CHECKS is set)
 name="$1"; shift
 base=/tmp/vpw-$name
 [ -d "$base" ] || /verif/tools/mkscratch.sh "$name" >/dev/null
+git -C "$base/repo" checkout -q -- . ; git -C "$base/repo" checkout -q --detach "$(git -C /repo rev-parse HEAD)"
+cp /verif/known_findings.json "$base/root/"
 for id in "$@"; do
-  d=/tmp/seed-out/$id; [ -f "$d/patch.diff" ] || d=/verif/seeded/$id
+  d=/verif/seeded/$id; [ -f "$d/patch.diff" ] || d=/tmp/seed-out/$id
   (cd "$base/repo" && git checkout -q -- . && git apply "$d/patch.diff") || { echo "$id: patch failed"; continue; }
-  : > "$d/checks.txt"
-  for c in ${CHECKS:-c01 c02 c03 c04 c05 c06 c07 c08 c09 c10 c11 c12 c13 c14 c15 c16 c17 c18 c19 c20}; do
+  out=$d/checks.txt; [ -n "${CHECKS:-}" ] && out=$d/checks_rerun.txt
+  : > "$out"
+  list=${CHECKS:-c01 c02 c03 c04 c05 c06 c07 c08 c09 c10 c11 c12 c13 c14 c15 c16 c17 c18 c19 c20}
+  # build first (not under the run timeout)
+  /verif/tools/scratch_run.sh "$name" c19 --tier quick --only none >/dev/null 2>&1
+  (cd "$base/harness" && CARGO_NET_OFFLINE=true cargo build --release $(for c in $list; do echo --bin $c; done) > "$base/build-all.log" 2>&1) || echo "$id: build failed" >> "$out"
+  for c in $list; do
     [ -f /verif/harness/vp-checks/src/bin/$c.rs ] || continue
-    out=$(VERIF_CASE_TIMEOUT=120 timeout 1500 /verif/tools/scratch_run.sh "$name" $c --tier quick --seed 1 2>&1); rc=$?
-    v=$(echo "$out" | grep -c "^VIOLATION")
-    sig=$(echo "$out" | grep "^failure" | head -2 | cut -c1-200 | tr '\n' ' ')
-    echo "$c rc=$rc violations=$v $sig" >> "$d/checks.txt"
+    o=$(VERIF_CASE_TIMEOUT=120 timeout 1800 /verif/tools/scratch_run.sh "$name" $c --tier quick --seed ${SEED:-1} 2>&1); rc=$?
+    v=$(echo "$o" | grep -c "^VIOLATION")
+    sig=$(echo "$o" | grep "^failure" | head -2 | cut -c1-200 | tr '\n' ' ')
+    echo "$c rc=$rc violations=$v $sig" >> "$out"
   done
   (cd "$base/repo" && git checkout -q -- .)
-  echo "== $id"; grep -v "rc=0 violations=0" "$d/checks.txt"
+  echo "== $id"; grep -v "rc=0 violations=0" "$out"
 done
